@@ -37,6 +37,9 @@ pub struct RefParser {
     pub state: St,
     pub params: Vec<Vec<u32>>,
     pub collected: Vec<char>,
+    /// set by the last dispatch: it was out of domain for one reason only, more than one
+    /// collected character (private marker and/or intermediates)
+    pub only_multi_collect: bool,
 }
 
 #[derive(Debug, Clone, PartialEq)]
@@ -45,7 +48,7 @@ pub struct Outcome { pub act: Act, pub func: Option<RefFn>, pub in_domain: bool 
 impl Default for RefParser { fn default() -> Self { Self::new() } }
 
 impl RefParser {
-    pub fn new() -> Self { RefParser { state: St::Ground, params: vec![vec![0]], collected: vec![] } }
+    pub fn new() -> Self { RefParser { state: St::Ground, params: vec![vec![0]], collected: vec![], only_multi_collect: false } }
     fn clear(&mut self) { self.params = vec![vec![0]]; self.collected.clear(); }
 
     pub fn feed(&mut self, c: char) -> Outcome {
@@ -133,6 +136,7 @@ impl RefParser {
 
     fn esc_dispatch(&mut self, c: char) -> Outcome {
         let in_domain = self.collected.len() <= 1;
+        self.only_multi_collect = !in_domain;
         let func = match (self.collected.last().copied(), c) {
             (None, c) if ('@'..='_').contains(&c) => execute(char::from_u32(c as u32 + 0x40).unwrap()), // ESC Fe == C1
             (None, '7') => Some(RefFn::Decsc),
@@ -150,8 +154,8 @@ impl RefParser {
 
     fn csi_dispatch(&mut self, c: char) -> Outcome {
         use RefFn::*;
-        let mut in_domain = self.collected.len() <= 1
-            && self.params.len() <= 32
+        let multi = self.collected.len() > 1;
+        let mut in_domain = self.params.len() <= 32
             && self.params.iter().all(|p| p.len() <= 6 && p.iter().all(|v| *v <= 65535));
         let has_colon = self.params.iter().any(|p| p.len() > 1);
         let func = match (self.collected.last().copied(), c) {
@@ -180,6 +184,8 @@ impl RefParser {
                 }
             }
         };
+        self.only_multi_collect = multi && in_domain;
+        let in_domain = in_domain && !multi;
         Outcome { act: Act::CsiDispatch, func, in_domain }
     }
 
